@@ -30,6 +30,34 @@ NOT_DECIDED = ("that process_row / merge_dicts place a cell value under the righ
 ASSUMPTIONS = ["summaries of node()/insert_xpaths/get_xpath record flows only", "dict insertion order is preserved (bind attribute order follows column order)"]
 
 
+def truth_conversion_eval(ctx, rule, rid):
+    """Every documented truth spelling in every convertible bind attribute comes out as true()/false() (evaluated on
+    the bind emitter for an untriggered row); other attributes keep the word."""
+    repo = ctx.repo
+    se = repo.cls("pyxform.survey_element:SurveyElement")
+    xb = se.methods["xml_bindings"]
+    for attr in sorted(spec.CONVERTIBLE) + ["jr:constraintMsg"]:
+        bad = []
+        for word in spec.TRUE_SPELLINGS + spec.FALSE_SPELLINGS + ["true()", "false()"]:
+            stub = SurveyStub()
+            it = ctx.interp(rid, hooks=base_hooks(stub))
+            it.reset([])
+            o = Obj(se, {"bind": {"type": "string", attr: word}, "name": "q1", "flat": None, "trigger": None}, name="q1", slots=("name", "label", "bind", "trigger", "flat", "type"))
+            try:
+                res = [n for n in (it.call_function(xb, [o], {"survey": stub.obj()}, None, xb.node) or []) if n is not None]
+                v = res[0].attrs.get(attr) if res else None
+                inner = v.attrs.get("src") if isinstance(v, Sym) else v
+            except Raised as e:
+                inner = f"raises {e.exc_name}"
+            if attr in spec.CONVERTIBLE:
+                want = "true()" if word in spec.TRUE_SPELLINGS + ["true()"] else "false()"
+            else:
+                want = word
+            if inner != want:
+                bad.append(f"{word!r} -> {inner!r} (expected {want!r})")
+        rule.check(not bad, f"truth words in bind.{attr}", "yes/no/true/false spellings are normalised in the convertible attributes and only there", xb.loc(), why_fail="; ".join(bad[:3]))
+
+
 def run(ctx):
     repo = ctx.repo
     rules = []
@@ -136,6 +164,7 @@ def run(ctx):
     r3.check(yn.get("true()") is True and yn.get("false()") is False, "yes_no:xpath booleans", "true()/false() are understood as settings values", "pyxform/aliases.py")
     conv = ctx.consts.get("pyxform.constants", "CONVERTIBLE_BIND_ATTRIBUTES", "C05.R3")
     r3.check(set(conv) == spec.CONVERTIBLE, "CONVERTIBLE_BIND_ATTRIBUTES", f"== {sorted(spec.CONVERTIBLE)}", "pyxform/constants.py", why_fail=f"got {sorted(conv)}")
+    truth_conversion_eval(ctx, r3, "C05.R3")
     rules.append(r3)
 
     # ------------------------------------------------------------------ R4
